@@ -172,6 +172,8 @@ def run_api(sh, ctx):
 	sizes += [rng.choice([1, 2, 3, 5, 8, 13, 16, 17, 18, 33, 64, 100, 257, 500]) for _ in range(max(sh['nworlds'] - 3, 0))]
 	if len(sizes) > 3:
 		sizes[3] = max(sizes[3], 8)      # the near-ties world needs a few references
+	SHARED_N = 17
+	shared = QueryParams(report_closest=SHARED_N)
 	for wi in range(sh['nworlds']):
 		n = sizes[wi]
 		w = ties_world(rng, n, style='near-ties' if wi == 3 else None)
@@ -210,6 +212,17 @@ def run_api(sh, ctx):
 								ctx.count('rows_with_tied_minimum')
 						ctx.count(f'n_regime:{"<=16" if n <= 16 else ("17-64" if n <= 64 else ">64")}')
 						digests[f'{wi}/{qi}/{N}/{chunk}'] = [x[0] for x in lst][:50]
+			# one parameter object the caller keeps and uses for every database of the run (smaller ones first): N is what the caller
+			# asked for, whatever databases were queried with the same object before
+			res = query(db, qs, shared)
+			ctx.count('queries_with_a_params_object_used_on_other_databases_before', int(wi > 0))
+			if wi > 0 and min(sizes[:wi]) < SHARED_N <= n:
+				ctx.count('reused_params_after_a_database_smaller_than_N')
+			for qi, item in enumerate(res.items):
+				lst = [(m.genome.key, float(m.distance), None if m.matched_taxon is None else m.matched_taxon.key) for m in item.closest_genomes]
+				desc = dict(n=n, N=SHARED_N, chunk='default', threads=sh['threads'], dispatch=sh['dispatch'], world_seed_index=wi, query=qi, sig_order=order[:30],
+				            row=[w.dist(qi, gi) for gi in order][:40], params_object=f'QueryParams(report_closest={SHARED_N}) created once, used before on databases of {sizes[:wi]} references')
+				check_item(ctx, w, qi, lst, item.classifier_result.closest_match.genome.key, SHARED_N, order, desc, 'query() with a re-used parameter object')
 		finally:
 			db.signatures.close()
 			db.session.close()
@@ -268,7 +281,7 @@ def run_shard(sh, ctx):
 
 def finalize(merged, tier, seed, inconclusive):
 	c = merged['counters']
-	for n in ['strict_mode_queries', 'rows_with_ties', 'rows_with_tied_minimum', 'n_regime:<=16', 'n_regime:17-64', 'n_regime:>64', 'csv_json_pairs', 'rows_with_near_ties', 'databases_with_unlisted_signatures_in_between', 'worlds_with_zero_threshold_and_zero_distance']:
+	for n in ['strict_mode_queries', 'rows_with_ties', 'rows_with_tied_minimum', 'n_regime:<=16', 'n_regime:17-64', 'n_regime:>64', 'csv_json_pairs', 'rows_with_near_ties', 'databases_with_unlisted_signatures_in_between', 'worlds_with_zero_threshold_and_zero_distance', 'reused_params_after_a_database_smaller_than_N']:
 		if c.get(n, 0) == 0:
 			inconclusive.append(f'class never observed: {n}')
 	dg = merged['notes'].get('digest_lists', {})
